@@ -34,6 +34,9 @@ type Engine struct {
 	solverFresh   bool
 	solverInt     bool
 	stopOnViol    int
+	maxSamples    int
+	doneSeen      int
+	sampled       int
 
 	runtimeErrT     types.Type
 	opaqueT         types.Type
@@ -86,6 +89,7 @@ type PathSample struct {
 	Observes  []string   `json:"observes,omitempty"`
 	End       string     `json:"end"`
 	Nondets   int        `json:"nondets"`
+	Values    []NondetVal `json:"values,omitempty"` // a satisfying assignment of the path condition (witness)
 }
 
 type Worker struct {
@@ -103,6 +107,21 @@ func (e *Engine) skipInit(path string) bool {
 		strings.HasPrefix(path, "github.com/prometheus"),
 		strings.HasPrefix(path, "crypto/"), strings.HasPrefix(path, "net/"),
 		strings.HasPrefix(path, "golang.org/x/"), strings.HasPrefix(path, "go.opentelemetry.io"):
+		return true
+	}
+	return false
+}
+
+// wantSample: the first few completed paths of an exploration, then every 997th, up to a cap.
+func (e *Engine) wantSample() bool {
+	e.mu.Lock()
+	defer e.mu.Unlock()
+	e.doneSeen++
+	if e.sampled >= e.maxSamples {
+		return false
+	}
+	if e.doneSeen <= 2 || e.doneSeen%997 == 0 {
+		e.sampled++
 		return true
 	}
 	return false
@@ -280,8 +299,8 @@ func (w *Worker) loop(harness *ssa.Function) {
 				}
 			}
 		}
-		if len(r.Samples) < 3 && end.kind == "done" && len(ex.decisions) > 0 {
-			r.Samples = append(r.Samples, PathSample{Decisions: ex.decisions, Actions: ex.actions, Observes: ex.observes, End: end.kind, Nondets: len(ex.nondets)})
+		if ex.sample != nil {
+			r.Samples = append(r.Samples, *ex.sample)
 		}
 		e.queue = append(e.queue, ex.newPrefix...)
 		if r.Paths >= e.maxPaths && !e.stopped {
@@ -338,6 +357,27 @@ func (w *Worker) runPath(harness *ssa.Function, prefix []int) (ex *Exec, end pat
 	ex.pushFrame(th, harness, nil, nil, nil)
 	ex.cur = th
 	ex.mainLoop()
+	// sample a few completed paths: solve the path condition for a witness so the path can be
+	// replayed natively and its observations compared (translator validation)
+	if e.wantSample() {
+		ex.flushPC()
+		if r := ex.sol.Check(ex.tc, ex.tc.tt, true); r == Sat {
+			var ts []*Term
+			for _, n := range ex.nondets {
+				ts = append(ts, n.T)
+			}
+			vals := ex.sol.Values(ex.tc, ts)
+			m := map[string]uint64{}
+			ps := &PathSample{Decisions: ex.decisions, Actions: ex.actions, End: "done", Nondets: len(ex.nondets)}
+			for _, n := range ex.nondets {
+				m[n.T.name] = vals[n.T.id]
+				ps.Values = append(ps.Values, NondetVal{Label: n.Label, Val: vals[n.T.id], W: n.T.w})
+			}
+			ps.Observes = ex.renderObserves(m)
+			ex.sample = ps
+		}
+		ex.sol.PopScope()
+	}
 	return ex, pathEnd{kind: "done"}
 }
 
